@@ -40,17 +40,19 @@ type Unit struct {
 	Layout  *idl.Layout
 	Texts   map[string]string
 
-	Dir      string // <scratch>/<name>
-	GenRes   vlib.CLIResult
-	GoFiles  []string // relative to Dir/gen
-	SyntaxEr []string
-	Pkgs     []*GenPkg
-	BuildErr []string // compiler diagnostics attributed to this unit's generated packages
-	DrvErr   []string // diagnostics in the driver only
-	Bin      string
-	Tag      string // free label (e.g. name of a known-finding exemplar)
-	ExtraDrv string // extra Go source appended to the driver (ops specific to a property)
-	ExtraImp []string
+	Dir          string // <scratch>/<name>
+	GenRes       vlib.CLIResult
+	GoFiles      []string // relative to Dir/gen
+	SyntaxEr     []string
+	Pkgs         []*GenPkg
+	BuildErr     []string // compiler diagnostics attributed to this unit's generated packages
+	DrvErr       []string // diagnostics in the driver only
+	Bin          string
+	Tag          string // free label (e.g. name of a known-finding exemplar)
+	ExtraDrv     string // extra Go source appended to the driver (ops specific to a property)
+	ExtraImp     []string
+	WantServices bool          // generate handler stubs and service registrations
+	Services     []ServiceInfo // filled by AddServiceDriver
 }
 
 type GenPkg struct {
